@@ -642,8 +642,20 @@ func c15resolvedAt(o *c15obs, epoch int) (time.Duration, bool) {
 
 var c15types = []core.DutyType{core.DutyProposer, core.DutyAttester, core.DutyAggregator, core.DutySyncContribution}
 
-func c15check(cs c15case, o *c15obs) (viol []c15viol, required int) {
+func c15check(cs c15case, o *c15obs) (viol []c15viol, required, excused int) {
 	bad := func(sig, f string, a ...any) { viol = append(viol, c15viol{sig, fmt.Sprintf(f, a...)}) }
+	// toldActive: the node itself had already reported validator 3 as active (a validators answer for a state in its
+	// activation epoch or later, e.g. the "head" fallback answered while a late tick of an earlier epoch is processed).
+	// From then on the scheduler cannot tell that 3 was not yet active in the earlier epoch it is still working on; only the
+	// stub (unlike a real node) assigns duties before activation, so this is not held against the scheduler.
+	toldActive := func(at time.Duration) bool {
+		for _, c := range o.Calls {
+			if c.Kind == "val" && c.Done && c.OK && c.Epoch >= c15Base+2 && c.TRet <= at && c15has(c.Idxs, 3) {
+				return true
+			}
+		}
+		return false
+	}
 	// ---- safety (always) ----
 	seen := map[core.Duty]int{}
 	for _, tr := range o.Trigs {
@@ -666,6 +678,8 @@ func c15check(cs c15case, o *c15obs) (viol []c15viol, required int) {
 			switch {
 			case idx == 9 || idx == 0:
 				bad("kind=triggered-for-foreign-validator type="+typ, "duty %s at %s carries a definition for validator %d (pubkey %s) which is not in the cluster: %s", tr.Duty, tr.At, idx, pk, tr.Defs[pk])
+			case idx == 3 && r < 2 && toldActive(tr.At):
+				excused++
 			case idx == 4 || (idx == 3 && r < 2):
 				bad(fmt.Sprintf("kind=triggered-for-inactive-validator type=%s validator=%d", typ, idx), "duty %s at %s carries a definition for validator %d which is not active in epoch %d: %s", tr.Duty, tr.At, idx, int(tr.Duty.Slot)/c15SPE, tr.Defs[pk])
 			case !assigned:
@@ -686,7 +700,7 @@ func c15check(cs c15case, o *c15obs) (viol []c15viol, required int) {
 	}
 	// ---- completeness (scripts without a reorg event) ----
 	if cs.Reorg >= 0 {
-		return viol, 0
+		return viol, 0, excused
 	}
 	ticked := map[uint64]bool{}
 	for _, tk := range o.Ticks {
@@ -727,7 +741,7 @@ func c15check(cs c15case, o *c15obs) (viol []c15viol, required int) {
 			}
 		}
 	}
-	return viol, required
+	return viol, required, excused
 }
 
 // ---- driver -------------------------------------------------------------------------------------------------------------------------------------------
@@ -804,7 +818,7 @@ func TestVerifC15(t *testing.T) {
 		for _, n := range o.Notes {
 			r.Note("harness: " + n)
 		}
-		viol, required := c15check(cs, o)
+		viol, required, excused := c15check(cs, o)
 		r.Eval(c15key(cs, o))
 		r.Steps(len(o.Hooks) + len(o.Calls))
 		// non-vacuity
@@ -812,6 +826,7 @@ func TestVerifC15(t *testing.T) {
 		r.Count("slot_ticks_delivered", len(o.Ticks))
 		r.Count("completeness_requirements_checked", required)
 		r.Count("beacon_calls", len(o.Calls))
+		r.Count("pending_validator_duty_excused_node_had_reported_it_active", excused)
 		delivered := map[uint64]bool{}
 		var maxSlot uint64
 		for _, tk := range o.Ticks {
@@ -866,7 +881,7 @@ func TestVerifC15(t *testing.T) {
 			done[v.sig] = true
 			ok := true
 			for k := 0; k < 3; k++ {
-				v2, _ := c15check(cs, c15run(t, cs))
+				v2, _, _ := c15check(cs, c15run(t, cs))
 				hit := false
 				for _, y := range v2 {
 					hit = hit || y.sig == v.sig
